@@ -260,6 +260,15 @@ pub fn run(tier: Tier) -> CheckResult {
                             1,
                         );
                         projects.push((format!("naming {} roles {}>{}>{} (dependencies first seen in two spellings)", ni, n0, n1, n2), crate::gen::Project::single(twice)));
+                        // once more with the dependencies mentioned only inside tuples that start or end
+                        // with another tuple
+                        let nested = src.replacen(
+                            &format!("pub first: {n1}, pub second: ({n2}, u32), pub third: models::{n1} }}", n1 = n1, n2 = n2),
+                            &format!("pub first: (String, (u32, {n1})), pub second: (({n2}, u32), String), pub third: ((u8, u8), (u32, {n2})) }}", n1 = n1, n2 = n2),
+                            1,
+                        );
+                        assert_ne!(nested, src);
+                        projects.push((format!("naming {} roles {}>{}>{} (dependencies only inside nested tuples)", ni, n0, n1, n2), crate::gen::Project::single(nested)));
                         projects.push((format!("naming {} roles {}>{}>{}", ni, n0, n1, n2), crate::gen::Project::single(src)));
                     }
                 }
@@ -314,7 +323,7 @@ pub fn run(tier: Tier) -> CheckResult {
     res.coverage.set("exhaustive", exhaustive);
     res.coverage.set("hooks_enabled", crate::run::HOOKS_ENABLED);
     res.coverage.set("samples", json!(cases.iter().step_by((cases.len() / 4).max(1)).take(4).collect::<Vec<_>>()));
-    res.coverage.set("rule", format!("every shared-use project once more with a first command that mentions both dependencies in two spellings each (the second being exactly a field type text); states = (labelled DAG on 1..{} nodes [thorough: + 5-node shapes with 3..4 edges], constructor context of the edges [uniform / one deviating], file layout; root = command parameter / return type, or - for up to three nodes - an event payload only); transitions = one in-process Zod generation per iteration-order schedule at hook sites S1 (files), S5 (topological roots), S6 (per-node dependencies): full product for <= 3 nodes, deviation bound {} beyond; oracle on every run: in the parsed types.ts every schema constant read outside a function body is defined earlier, and all parameter schemas follow all struct/enum schemas; the first run of every state is executed twice to expose uncontrolled nondeterminism. Plus 144 three-type projects (six naming schemes x every assignment of names to roles) in which every type is also used by a command of its own while fields mention dependencies bare, in a tuple and through a module path. Non-trivial = at least one hook site had >= 2 elements to order.", max_n, if tier == Tier::Quick { 1 } else { 2 }));
+    res.coverage.set("rule", format!("every shared-use project once more with a first command that mentions both dependencies in two spellings each (the second being exactly a field type text); states = (labelled DAG on 1..{} nodes [thorough: + 5-node shapes with 3..4 edges], constructor context of the edges [uniform / one deviating], file layout; root = command parameter / return type, or - for up to three nodes - an event payload only); transitions = one in-process Zod generation per iteration-order schedule at hook sites S1 (files), S5 (topological roots), S6 (per-node dependencies): full product for <= 3 nodes, deviation bound {} beyond; oracle on every run: in the parsed types.ts every schema constant read outside a function body is defined earlier, and all parameter schemas follow all struct/enum schemas; the first run of every state is executed twice to expose uncontrolled nondeterminism. Plus 144 three-type projects (each in three variants: as described, with the dependencies first seen in two spellings, and with the dependencies mentioned only inside tuples that start or end with another tuple) (six naming schemes x every assignment of names to roles) in which every type is also used by a command of its own while fields mention dependencies bare, in a tuple and through a module path. Non-trivial = at least one hook site had >= 2 elements to order.", max_n, if tier == Tier::Quick { 1 } else { 2 }));
     res.assumptions = vec!["iteration orders are owned through the verif-hooks sites; the sort that follows a hook site normalises the order, so a change that drops the sort is what the schedules expose".into()];
     let _ = c07::ROOTS;
     res
